@@ -472,23 +472,29 @@ def _emit_fn(unit, fs, it, out, rules):
         if fs.enter.strip():
             ed.ins_after(bo, "\n" + fs.enter)
         if fs.exit.strip():
-            # tail expression = tokens after the last top-level `;` or `}` of the body
-            j = bc - 1
-            depth = 0
+            # tail expression = tokens after the last top-level `;` (or after a block statement) of the body
+            opener = {}
+            stack = []
+            for q in range(bo, bc + 1):
+                if toks[q].text in OPEN:
+                    stack.append(q)
+                elif toks[q].text in CLOSE:
+                    opener[q] = stack.pop()
+            pos = bc - 1
             tail = bc
-            while j > bo:
-                x = toks[j].text
-                if x in CLOSE:
-                    if depth == 0 and x == "}" and j != bc - 1:
+            if toks[pos].text != ";":
+                while pos > bo:
+                    x = toks[pos].text
+                    if x in CLOSE:
+                        if x == "}" and pos != bc - 1 and toks[pos + 1].text != "else" and toks[pos + 1].text not in (".", "?"):
+                            break           # end of a previous block-like statement
+                        pos = opener[pos] - 1
+                        continue
+                    if x == ";":
                         break
-                    depth += 1
-                elif x in OPEN:
-                    depth -= 1
-                elif depth == 0 and x == ";":
-                    break
-                j -= 1
-            tail = j + 1
-            if toks[bc - 1].text in (";", "}") and tail == bc:
+                    pos -= 1
+                tail = pos + 1
+            if (toks[bc - 1].text in (";", "}") and tail == bc) or toks[tail].text in ("while", "for", "loop"):
                 ed.ins_before(bc, "\n" + fs.exit)
             else:
                 ed.ins_before(tail, "\n" + fs.exit)
